@@ -38,7 +38,7 @@ FRAGS = ["<script>alert(1)</script>", "\"><img src=x onerror=alert(1)>", "</p><h
          "'", "\"", "<!--", "-->", "</html>", "<p", "<a href='x'>", "\\x3cscript\\x3e", "<\x00script>", "<scrıpt>", "%3Cscript%3E",
          "<", ">", "</title><script>", "<plaintext>", " ", "café", "<b>" * 5]
 H1_KINDS = ["request-line-extra", "method", "header-name", "te-value", "cl-value", "scheme", "host-header", "connect-fail",
-            "response-line", "response-header-name", "response-te", "body-limit", "version"]
+            "response-line", "response-header-name", "response-te", "body-limit", "version", "connect-method-fail"]
 H2_KINDS = ["h2-header-name", "h2-te-value", "h2-scheme", "h2-connect-fail", "h2-response-line", "h2-cl-value"]
 SKELETON = ["html", "head", "title", "/title", "/head", "body", "h1", "/h1", "p", "/p", "/body", "/html"]
 
@@ -177,6 +177,15 @@ def h1_case(kind, payload: str, flag):
         req = b"GET / HTTP/1.1\r\nHost: " + P + b"\r\n\r\n"
     elif kind == "connect-fail":
         connect_err = payload
+    elif kind == "connect-method-fail":
+        # a CONNECT whose (eager) upstream connection fails: mitmproxy answers with a response it builds itself
+        if flag:
+            zone = re.sub(rb"[\]\[\s/@:]", b"", Pn) or b"x"
+            req = b"CONNECT [fe80::1%" + zone + b"]:443 HTTP/1.1\r\nHost: [fe80::1%" + zone + b"]:443\r\n\r\n"
+            connect_err = "connection refused"
+        else:
+            req = b"CONNECT a.example:443 HTTP/1.1\r\nHost: a.example:443\r\n\r\n"
+            connect_err = payload
     elif kind == "response-line":
         resp = (b"HTTP/1.1 " + P + b"\r\n\r\n") if flag else (P + b"\r\n\r\n")
     elif kind == "response-header-name":
@@ -280,16 +289,23 @@ def check_case(case, ctx):
     pages = 0
     for m in res.msgs:
         server = b"".join(m.get_all(b"server"))
-        if m.status >= 400 and server.startswith(b"mitmproxy"):
+        ct = b"".join(m.get_all(b"content-type")).lower()
+        if kind == "connect-method-fail" and m.status >= 400 and not server.startswith(b"mitmproxy"):
+            # built by mitmproxy without the error-page template: harmless as long as it is not declared as markup
+            if not (b"html" in ct or b"xml" in ct or b"svg" in ct):
+                ctx.cls("authored-response-not-markup:" + kind)
+                continue
+        elif not (m.status >= 400 and server.startswith(b"mitmproxy")):
+            continue
+        if True:
             pages += 1
-            ct = b"".join(m.get_all(b"content-type")).lower()
             if not ct.startswith(b"text/html"):
                 ctx.fail("error-page-content-type:" + kind, repr(m.fields))
             if m.framing != "cl":
                 ctx.fail("error-page-framing:" + kind, m.framing)
             _, out2, _ = run_h1(kind, neutral(payload), flag)
             res2 = ref_http1.parse_responses(out2, [b"GET"] * 4)
-            ref_pages = [x for x in res2.msgs if x.status >= 400 and b"".join(x.get_all(b"server")).startswith(b"mitmproxy")]
+            ref_pages = [x for x in res2.msgs if x.status >= 400 and (kind == "connect-method-fail" or b"".join(x.get_all(b"server")).startswith(b"mitmproxy"))]
             if judge_html(m.body, payload, kind, ctx, ref_body=ref_pages[0].body if ref_pages else None):
                 ctx.nt((kind, payload), "reflected:" + kind)
             else:
